@@ -235,7 +235,21 @@ def sweep(fx, R):
               continue
           pname = g['params'][0]['name'] if g.get('params') else 'other'
           lost = []
+          import re as _re
+
+          def self_assignment(st_):
+              # the path `this == &other` of a self-assignment guard: nothing needs to be handed over there
+              for c_ in st_.cond:
+                  txt = c_[0].replace(' ', '').replace('(', '').replace(')', '')
+                  m_ = _re.search(r'(?:this(!=|==)&%s|&%s(!=|==)this)' % (_re.escape(pname), _re.escape(pname)), txt)
+                  if m_:
+                      op_ = m_.group(1) or m_.group(2)
+                      if (op_ == '==') == bool(c_[2]):
+                          return True
+              return False
           for st in sts:
+              if self_assignment(st):
+                  continue
               for fl_ in fields:
                   vals = [str(v) for k_, v in st.fields.items() if len(k_) >= 2 and k_[0] == 'this' and k_[1] == fl_]
                   copied = any(('%s.%s' % (pname, fl_)) in v_ or ('arg:%s' % pname) == v_ for v_ in vals)
